@@ -60,9 +60,9 @@ theorem removal_keeps_capacity (c : HCfg) (t : HashTable) (k : Key) (m : Mem) (h
 /-- **only O(log n) reallocations.**  Inserting any list of pairs into a table of capacity `c₀`
 (statuses ignored, refusals allowed) performs exactly `j` bucket-array allocations, where the final
 capacity is `c₀ · 2^j`; all other allocations are one per new entry.  For a load factor of at least
-0.25 (`x / 4 ≤ thr x`) the final capacity is below `8 · (size + 1)` whenever a reallocation
+0.25 (`2^k / 4 ≤ thr (2^k)` at the capacities `2^k`, `k < 32`, a table can have) the final capacity is below `8 · (size + 1)` whenever a reallocation
 happened, hence `j ≤ log2 (8 · (size + 1))` with `size ≤ initial size + n`. -/
-theorem reallocations_logarithmic (c : HCfg) (hthr : ∀ x, x / 4 ≤ c.thr x) (t : HashTable)
+theorem reallocations_logarithmic (c : HCfg) (hthr : ∀ k, k < 32 → 2 ^ k / 4 ≤ c.thr (2 ^ k)) (t : HashTable)
     (kvs : List (Key × Nat)) (m : Mem) (h : t.Inv c) :
     ∃ j, (HashTable.addMany c t kvs m).1.capacity = t.capacity * 2 ^ j ∧
       allocsOf (HashTable.addMany c t kvs m).2 t.triple = allocsOf m t.triple + j + ((HashTable.addMany c t kvs m).1.size - t.size) ∧
@@ -114,7 +114,7 @@ the bound is derived directly on the model.  `n` insertions into a table with `s
 `j` bucket-array allocations (every other allocation is a new entry) with
 `j ≤ log2 (size + n + 1) + 3` for every load factor ≥ 0.25 — the `+ 3` is the factor 8 =
 2 / 0.25 between the entry count and the capacity. -/
-theorem appends_realloc_log (c : HCfg) (hthr : ∀ x, x / 4 ≤ c.thr x) (t : HashTable)
+theorem appends_realloc_log (c : HCfg) (hthr : ∀ k, k < 32 → 2 ^ k / 4 ≤ c.thr (2 ^ k)) (t : HashTable)
     (kvs : List (Key × Nat)) (m : Mem) (h : t.Inv c) :
     ∃ j, (HashTable.addMany c t kvs m).1.capacity = t.capacity * 2 ^ j ∧
       allocsOf (HashTable.addMany c t kvs m).2 t.triple = allocsOf m t.triple + j + ((HashTable.addMany c t kvs m).1.size - t.size) ∧
@@ -145,8 +145,11 @@ theorem history_capacity_invariants (c : HCfg) (ops : List Spec.Map.Op) (t : Has
   have hi := (C02.history_refines c ops t m t.abs h hl (List.Perm.refl _)).2.2.1
   exact ⟨hi.1, hi.2.1, hi.2.2.2.2.2⟩
 
-/-- the hypothesis of the logarithmic bounds is satisfiable: every load factor ≥ 0.25, e.g. 0.75 -/
-example : ∀ x, x / 4 ≤ (fun cap => cap * 3 / 4) x := fun x => by simp only; omega
+/-- the hypothesis of the logarithmic bounds is satisfiable: it is asked only at the capacities a table
+can have (powers of two, where the shipped float product `(size_t)(2^k * lf)` is exact for
+`lf ∈ {0.25, 0.5, 0.75, 1}`), e.g. by the exact quarter and by three quarters -/
+example : ∀ k, k < 32 → 2 ^ k / 4 ≤ (fun cap => cap / 4) (2 ^ k) := fun _ _ => Nat.le_refl _
+example : ∀ k, k < 32 → 2 ^ k / 4 ≤ (fun cap => cap * 3 / 4) (2 ^ k) := fun k _ => by simp only; omega
 
 /-- non-vacuity: capacity 1, load factor 0.25 (`thr 1 = thr 2 = 0`, `thr 4 = 1`): the first insertion
 doubles twice -/
